@@ -1,5 +1,6 @@
 import Originium.Model.DiskProgMain
 import Originium.Model.DBTie
+import Originium.Model.WalTie
 /-! # C04 — after a crash every transaction is visible completely or not at all (process-crash model)
 
 In an accepted trace a transaction reaches the disk by exactly one event `commit id b` carrying its
@@ -78,10 +79,27 @@ theorem C04_code_batch_then_rotation (size threshold : Nat) :
   rw [DBTie.rawset_table]
   by_cases h : threshold ≤ size <;> simp [h] <;> decide
 
+/-- the Go code itself (`WAL.Write`, translated from /repo on every run): whatever fails and however large the batch is, the
+    wal file is written at most once per call, and that one write carries the records of ALL the entries of the batch in
+    order — a batch never reaches the file in pieces, so a crash cannot leave a proper part of it behind as complete
+    records; when nil is returned the write was followed by an fsync -/
+theorem C04_code_one_write {ε β : Type} (enc : ε → List β) (len8 : Nat → List β) (nilFD sf : Bool) (mf : ε → Bool) (wf syf : Bool)
+    (entries : List ε) :
+    let r := GenWal.write enc len8 nilFD sf mf wf syf entries []
+    (r.2.filter (fun e => e.1 == "write") = [] ∨
+        r.2.filter (fun e => e.1 == "write") = [("write", WalTie.batchBytes enc len8 entries)]) ∧
+      (r.1 = true → r.2 = [("w.mu.Lock", []), ("seek to the end", []), ("write", WalTie.batchBytes enc len8 entries), ("fsync", [])]) :=
+  ⟨WalTie.write_once enc len8 nilFD sf mf wf syf entries, WalTie.write_ack enc len8 nilFD sf mf wf syf entries⟩
+
+/-- non-vacuity: a batch of two entries, no failure -/
+example : GenWal.write (fun (e : Nat) => [e, e]) (fun n => [100 + n]) false false (fun _ => false) false false [1, 2] [] =
+    (true, [("w.mu.Lock", []), ("seek to the end", []), ("write", [102, 1, 1, 102, 2, 2]), ("fsync", [])]) := by decide
+
 #print axioms C04_all_or_nothing
 #print axioms C04_written_visible
 #print axioms C04_split_commit_witness
 #print axioms C04_program_all_or_nothing
 #print axioms C04_program_one_write
 #print axioms C04_code_batch_then_rotation
+#print axioms C04_code_one_write
 end Props
